@@ -37,8 +37,14 @@ def generate(seed, tier):
         kinds = ['getpeers', 'getdata', 'inv', 'getblocks', 'peers', 'data_tx'] if small else \
                 ['hello', 'getpeers', 'getdata', 'inv', 'getblocks', 'peers', 'data_tx', 'data_block']
         msgs.append({'kind': rng.choice(kinds), 'a': rng.randrange(1000), 'n': rng.randrange(0, 4)})
+    if rng.random() < 0.08:
+        # one frame well above 64 KiB in the middle of the stream: its body spans many reads and the read that
+        # completes it also carries the start of the next frame
+        msgs.insert(rng.randrange(len(msgs)), {'kind': 'peers_big', 'a': rng.randrange(1000), 'n': rng.randrange(3000, 3300)})
+        msgs.append({'kind': 'getpeers', 'a': 1, 'n': 0})
     tail = rng.choice([None, None, 'magic0', 'magic1', 'magic2', 'magic3', 'len_over', 'len_zero', 'bad_payload',
-                       'truncated', 'unknown_type', 'trailing_garbage', 'len_over_end', 'len_zero_end', 'magic_end'])
+                       'truncated', 'unknown_type', 'trailing_garbage', 'len_over_end', 'len_zero_end', 'magic_end',
+                       'len_magic_alphabet', 'len_magic_alphabet', 'double_magic'])
     return {'config': {'tail': tail, 'cuts_seed': rng.getrandbits(32), 'exhaustive_limit': 520}, 'ops': msgs}
 
 
@@ -86,6 +92,8 @@ def build_stream(script):
             msg = M.InventoryMessage([M.InventoryItem(M.DATA_BLOCK, bytes([(a + j) % 256]) * 32) for j in range(n)])
         elif k == 'getblocks':
             msg = M.GetBlocksMessage([bytes([(a + j) % 256]) * 32 for j in range(n + 1)])
+        elif k == 'peers_big':
+            msg = M.PeersMessage([M.Peer(a + j, IPv6Address('::ffff:10.%d.%d.%d' % (j // 65536 % 256, j // 256 % 256, j % 256)), 2412) for j in range(n)])
         elif k == 'peers':
             msg = M.PeersMessage([M.Peer(a + j, IPv6Address('::ffff:10.1.%d.%d' % (j, a % 250)), 2412) for j in range(n)])
         elif k == 'data_tx':
@@ -107,6 +115,14 @@ def build_stream(script):
         frames.append(bytes(mg) + struct.pack('>I', len(good)) + good)
     elif tail == 'len_over':
         frames.append(MAGIC + struct.pack('>I', MAX_MESSAGE_SIZE + 1) + good)
+    elif tail == 'len_magic_alphabet':
+        # an over-limit length spelled with bytes that also occur in the magic (0x41 'A', 0x49 'I', 0x4a 'J', 0x4d 'M')
+        n_ = len(frames)
+        ln = [b'A\x00\x00\x00', b'MAJI', b'I\x00\x00\x01', b'JJJJ', b'MA\x00\x00'][n_ % 5]
+        frames.append(MAGIC + ln + good)
+        frames.append(MAGIC + struct.pack('>I', len(good)) + good)
+    elif tail == 'double_magic':
+        frames.append(MAGIC + MAGIC + struct.pack('>I', len(good)) + good)
     elif tail == 'len_over_end':
         frames.append(MAGIC + struct.pack('>I', MAX_MESSAGE_SIZE + 1 + len(frames)))
     elif tail == 'len_zero_end':
